@@ -608,7 +608,7 @@ def run(rep):
     base = tempfile.mkdtemp(prefix="rsj-c13-", dir="/tmp")
     base = os.path.realpath(base)
     try:
-        ntrees = 200 if rep.tier == "quick" else 2500
+        ntrees = 200 if rep.tier == "quick" else 1000
         work = []
         for sp in CORPUS:
             for jl in [list(p) for p in itertools.permutations(sp["jset"])]:
